@@ -2,7 +2,7 @@
    insert_append) including split_leaf. *)
 From Coq Require Import ZArith List Bool Lia Sorting.Permutation Sorting.Sorted.
 From TV Require Import Lib.MachInt Gen.Varint Model.BTree Model.BTreeSpec Model.BTreeInv
-  Proof.BTreeOrder Proof.BTreeInv Proof.BTreeLeaf.
+  Proof.BTreeOrder Proof.BTreeInv Proof.BTreeLeaf Proof.BTreeMid.
 Import ListNotations.
 Open Scope Z_scope.
 Arguments Z.sub : simpl never.
@@ -24,16 +24,51 @@ Notation bounded := (bounded V vlen).
 Notation abs := (abs V).
 Notation keys := (keys V).
 
-(* what a (sub)tree insertion result must satisfy *)
+(* no cell of more than half a page; the separator fits an (empty) interior page *)
+Definition half_okP (c : entry) : Prop := 2 * (csize c + SLOT) <= LEAF_CAP.
+Definition sep_fits (s : key) : Prop := klen s + ISLOT <= PAGE - INT_START.
+Definition cell_fits (c : entry) : Prop := csize c + SLOT <= LEAF_CAP.
+
+(* what a (sub)tree insertion result must satisfy; the only error left is the zero-separator panic *)
 Definition ires_ok (h : nat) (lo hi : option key) (t : tree) (e : entry) (r : ires) : Prop :=
   match r with
   | IOk t' _ => bounded h lo hi t' /\ Permutation (abs h t') (e :: abs h t)
   | ISplit L s R _ =>
-      bounded h lo (Some s) L /\ bounded h (Some s) hi R /\ lo_lt lo s /\ hi_ok hi s
+      bounded h lo (Some s) L /\ bounded h (Some s) hi R /\ lo_lt lo s /\ hi_ok hi s /\ sep_fits s
       /\ Permutation (abs h L ++ abs h R) (e :: abs h t)
   | IDup _ => In (fst e) (keys (abs h t))
-  | IErr _ => True
+  | IFull _ => exists c, In c (e :: abs h t) /\ ~ half_okP c
+  | IErr er => er = EZeroSep
   end.
+
+Lemma sum_sizes (cs : list entry) :
+  sumz (map (fun c : entry => csize c + SLOT) cs) = sumz (map csize cs) + SLOT * Z.of_nat (length cs).
+Proof.
+  induction cs as [|c cs IH]; [reflexivity|]. cbn [map length]. rewrite !sumz_cons, IH, Nat2Z.inj_succ. lia.
+Qed.
+
+Lemma ksorted_of_ssorted (cs : list entry) : ssorted V cs -> ksorted (map fst cs) = true.
+Proof.
+  induction cs as [|a r IH]; intros Hs; [reflexivity|]. apply ssorted_cons_inv in Hs as [Hs Hf]. cbn [map ksorted].
+  destruct r as [|b r']; [reflexivity|]. cbn [map] in *. rewrite (IH Hs), andb_true_r. apply kltb_true.
+  rewrite Forall_forall in Hf. apply (Hf b). left. reflexivity.
+Qed.
+
+Lemma leaf_cells_fit lo hi (l : leaf) c : leaf_ok lo hi l -> In c (lcells l) -> cell_fits c.
+Proof.
+  intros (_ & _ & H1 & H2 & _) Hin. unfold cell_fits.
+  assert (Hc : csize c <= sumz (map csize (lcells l))).
+  { clear - Hin vlen_nonneg. induction (lcells l) as [|x cs IH]; [destruct Hin|]. cbn [map]. rewrite sumz_cons.
+    pose proof (sum_csize_nonneg V vlen vlen_nonneg cs). pose proof (csize_nonneg V vlen vlen_nonneg x).
+    destruct Hin as [<- | Hin]; [lia | specialize (IH Hin); lia]. }
+  assert (Hn : (1 <= length (lcells l))%nat) by (destruct (lcells l); [destruct Hin | cbn; lia]).
+  unfold BTree.lcount, LEAF_CAP, LEAF_START, SLOT, PAGE in *. lia.
+Qed.
+Lemma cell_fits_sep (c : entry) : cell_fits c -> sep_fits (fst c).
+Proof.
+  unfold cell_fits, sep_fits, BTree.csize. pose proof (varint_len_pos (vlen (snd c))). pose proof (vlen_nonneg (snd c)).
+  unfold LEAF_CAP, LEAF_START, SLOT, ISLOT, INT_START, PAGE. lia.
+Qed.
 
 Lemma choose_mid_range rm sizes : (1 <= length sizes)%nat ->
   (choose_mid rm sizes <= length sizes - 1)%nat /\ ((2 <= length sizes)%nat -> (1 <= choose_mid rm sizes)%nat).
@@ -76,16 +111,57 @@ Lemma build_leaf_ok id (cs : list entry) L lo hi : build_leaf V vlen id cs = Som
 Proof.
   unfold build_leaf. destruct (Z.leb_spec (LEAF_START + SLOT * Z.of_nat (length cs) + sumz (map csize cs)) PAGE); [|discriminate].
   intros [= <-] Hs Hin. split; [|reflexivity]. split; [exact Hs|]. split; [exact Hin|].
-  unfold leaf_sizes, BTree.lcount. cbn [lcells lfe lfrag]. unfold LEAF_START, SLOT, PAGE in *. lia.
+  unfold leaf_sizes, BTree.lcount. cbn [lcells lfe lfrag]. split; [unfold LEAF_START, SLOT, PAGE in *; lia|].
+  split; [lia|]. split; [lia|]. intros ->. reflexivity.
+Qed.
+
+(* a refused split has a cell of more than half a page among the cells involved *)
+Lemma split_refusal_witness rm (l : leaf) (e : entry) (np : Z) mid lo hi :
+  leaf_ok lo hi l -> cell_fits e ->
+  mid = choose_mid rm (map (fun c : entry => csize c + SLOT) (om_ins V e (lcells l))) ->
+  (build_leaf V vlen (lid l) (firstn mid (om_ins V e (lcells l))) = None
+   \/ build_leaf V vlen np (skipn mid (om_ins V e (lcells l))) = None) ->
+  exists c, In c (e :: lcells l) /\ ~ half_okP c.
+Proof.
+  intros Hok Hfit Hmid Hnone. pose proof Hok as (Hs & Hin & Hsz1 & Hsz2 & Hfr & Hemp).
+  set (cs := lcells l) in *. set (all := om_ins V e cs) in *.
+  assert (Pall : Permutation all (e :: cs)) by (apply Permutation_sym, om_ins_perm).
+  destruct (forallb (fun c : entry => 2 * (csize c + SLOT) <=? LEAF_CAP) (e :: cs)) eqn:Eall.
+  2:{ assert (Hex : existsb (fun c : entry => negb (2 * (csize c + SLOT) <=? LEAF_CAP)) (e :: cs) = true).
+      { clear - Eall. induction (e :: cs) as [|x r IH]; [discriminate|]. cbn [forallb existsb] in *.
+        destruct (2 * (csize x + SLOT) <=? LEAF_CAP); cbn [negb andb orb] in *; [apply IH; exact Eall | reflexivity]. }
+      apply existsb_exists in Hex as (c & Hc & Hb). exists c. split; [exact Hc|]. apply negb_true_iff, Z.leb_gt in Hb.
+      unfold half_okP. lia. }
+  exfalso. rewrite forallb_forall in Eall.
+  set (sizes := map (fun c : entry => csize c + SLOT) all) in *.
+  assert (Hszb : forall s, In s sizes -> 0 <= s <= 8180).
+  { intros s Hs0. apply in_map_iff in Hs0 as (c & <- & Hc). apply (Permutation_in _ Pall) in Hc. specialize (Eall _ Hc).
+    apply Z.leb_le in Eall. pose proof (csize_nonneg V vlen vlen_nonneg c). unfold LEAF_CAP, PAGE, LEAF_START, SLOT in *. lia. }
+  assert (Htot : sumz sizes <= LEAF_CAP + 8180).
+  { unfold sizes. rewrite (sumz_perm _ _ (Permutation_map (fun c : entry => csize c + SLOT) Pall)). cbn [map]. rewrite sumz_cons, sum_sizes.
+    specialize (Eall e (or_introl eq_refl)). apply Z.leb_le in Eall.
+    unfold BTree.lcount in *. fold cs in Hsz1, Hsz2. unfold LEAF_CAP, PAGE, LEAF_START, SLOT in *. lia. }
+  assert (Hlen : (1 <= length sizes)%nat).
+  { unfold sizes. rewrite map_length, (Permutation_length Pall). cbn [length]. lia. }
+  destruct (choose_mid_fits sizes 8180 Hszb ltac:(unfold LEAF_CAP, PAGE, LEAF_START; lia) Htot Hlen rm) as [HL HR].
+  rewrite <- Hmid in HL, HR. unfold Lm, Rm, sizes in HL, HR. rewrite firstn_map in HL. rewrite skipn_map in HR. rewrite sum_sizes in HL, HR.
+  unfold build_leaf in Hnone. unfold LEAF_CAP, PAGE, LEAF_START, SLOT in *.
+  destruct Hnone as [Hn | Hn].
+  - destruct (Z.leb_spec (24 + 8 * Z.of_nat (length (firstn mid all)) + sumz (map csize (firstn mid all))) 16384); [discriminate | lia].
+  - destruct (Z.leb_spec (24 + 8 * Z.of_nat (length (skipn mid all)) + sumz (map csize (skipn mid all))) 16384); [discriminate | lia].
 Qed.
 
 Lemma split_leaf_ok rm (l : leaf) (e : entry) np lo hi :
-  leaf_ok lo hi l -> lo_ok lo (fst e) -> hi_ok hi (fst e) ->
-  (lcells l = [] -> lo_lt lo (fst e)) ->
+  leaf_ok lo hi l -> lo_ok lo (fst e) -> hi_ok hi (fst e) -> cell_fits e ->
+  lfree V l < csize e + SLOT ->
   ires_ok 0 lo hi (Leaf l) e (split_leaf V vlen rm l e np).
 Proof.
-  intros (Hs & Hin & Hsz) Hlo Hhi Hstrict. unfold split_leaf. rewrite insert_at_ppos.
+  intros Hok Hlo Hhi Hfit Hnoroom. pose proof Hok as (Hs & Hin & Hsz1 & Hsz2 & Hfr & Hemp).
+  unfold split_leaf. rewrite insert_at_ppos.
   set (cs := lcells l) in *.
+  assert (Hcsne : cs <> []).
+  { intros Hnil. pose proof (Hemp Hnil) as Hpage. unfold BTree.lfree, lfstart, BTree.lcount, cell_fits in *. fold cs in Hnoroom.
+    rewrite Hnil in Hnoroom. cbn [length] in Hnoroom. unfold LEAF_CAP, LEAF_START, SLOT, PAGE in *. lia. }
   destruct (_ || _) eqn:Edup.
   { (* duplicate detected *)
     cbn [ires_ok]. rewrite abs_leaf. fold cs. apply orb_true_iff in Edup as [Ed | Ed].
@@ -97,42 +173,49 @@ Proof.
   assert (Hn : ~ In (fst e) (keys cs)).
   { intros Hk. pose proof (ppos_dup (fst e) cs Hs Hk) as Hd. destruct (ppos (fst e) cs) as [|p]; [exact Hd|].
     destruct Hd as (c & Hc & Hck). rewrite Hc in Ed1. apply keqb_false in Ed1. contradiction. }
-  destruct (negb _); [exact I|].
-  set (all := om_ins V e cs). set (mid := choose_mid rm _).
+  set (all := om_ins V e cs).
   assert (Hall : ssorted V all) by (apply om_ins_sorted; assumption).
+  rewrite (ksorted_of_ssorted all Hall). cbn [negb].
+  set (sizes := map (fun c : entry => csize c + SLOT) all). set (mid := choose_mid rm sizes).
   assert (Pall : Permutation all (e :: cs)) by (apply Permutation_sym, om_ins_perm).
   assert (Hallin : cells_in V lo hi all).
   { eapply Permutation_Forall; [apply Permutation_sym; exact Pall|]. constructor; [split; assumption | exact Hin]. }
   assert (Hlen : length all = S (length cs)) by (rewrite (Permutation_length Pall); reflexivity).
+  assert (Hlen2 : (2 <= length all)%nat) by (destruct cs; [contradiction | cbn [length] in Hlen; lia]).
   assert (Hmid : (mid <= length all - 1)%nat /\ ((2 <= length all)%nat -> (1 <= mid)%nat)).
-  { unfold mid. rewrite <- (map_length (fun c : entry => csize c + SLOT) all). apply choose_mid_range. rewrite map_length. lia. }
-  destruct (nth_error all mid) as [sepc|] eqn:Esep; [|exact I].
-  destruct (build_leaf V vlen (lid l) (firstn mid all)) as [L|] eqn:EL; [|exact I].
-  destruct (build_leaf V vlen np (skipn mid all)) as [R|] eqn:ER; [|exact I].
-  pose proof (skipn_nth_cons _ _ _ Esep) as Hskip.
-  pose proof Hall as Hall2. rewrite <- (firstn_skipn mid all) in Hall2. apply ssorted_app in Hall2 as (HsL & HsR & Hcross).
-  assert (HinL : cells_in V lo (Some (fst sepc)) (firstn mid all)).
-  { apply Forall_forall. intros x Hx. unfold BTreeInv.cells_in in Hallin. rewrite Forall_forall in Hallin.
-    split; [apply Hallin; eapply In_firstn_c28; exact Hx|]. cbn. apply Hcross; [exact Hx | rewrite Hskip; left; reflexivity]. }
-  assert (HinR : cells_in V (Some (fst sepc)) hi (skipn mid all)).
-  { apply Forall_forall. intros x Hx. unfold BTreeInv.cells_in in Hallin. rewrite Forall_forall in Hallin.
-    split; [|apply Hallin; eapply In_skipn_c28; exact Hx]. cbn. rewrite Hskip in Hx, HsR. destruct Hx as [<- | Hx].
-    - apply klt_irrefl.
-    - apply ssorted_cons_inv in HsR as [_ Hf]. rewrite Forall_forall in Hf. specialize (Hf _ Hx). intros H1. exact (klt_asym _ _ Hf H1). }
-  destruct (build_leaf_ok _ _ _ _ _ EL HsL HinL) as [HLok HLc].
-  destruct (build_leaf_ok _ _ _ _ _ ER HsR HinR) as [HRok HRc].
+  { unfold mid, sizes. rewrite <- (map_length (fun c : entry => csize c + SLOT) all). apply choose_mid_range. rewrite map_length. lia. }
+  destruct (nth_error all mid) as [sepc|] eqn:Esep.
+  2:{ exfalso. apply nth_error_None in Esep. lia. }
+  assert (Hallfit : forall c, In c all -> cell_fits c).
+  { intros c Hc. apply (Permutation_in _ Pall) in Hc. destruct Hc as [<- | Hc]; [exact Hfit | eapply leaf_cells_fit; [exact Hok | exact Hc]]. }
   assert (Hsepin : In sepc all) by (eapply nth_error_In; exact Esep).
-  cbn [ires_ok BTreeInv.bounded]. rewrite !abs_leaf, HLc, HRc, firstn_skipn. fold cs.
-  split; [exact HLok|]. split; [exact HRok|]. split; [|split; [|exact Pall]].
-  - destruct mid as [|m] eqn:Em.
-    + (* the leaf was empty *)
-      assert (Hcs : cs = []) by (apply length_zero_iff_nil; lia).
-      specialize (Hstrict Hcs). unfold all in Esep. rewrite Hcs in Esep. cbn in Esep. injection Esep as <-. exact Hstrict.
-    + destruct (firstn (S m) all) as [|x0 xs] eqn:Ef.
+  destruct (build_leaf V vlen (lid l) (firstn mid all)) as [L|] eqn:EL;
+    [destruct (build_leaf V vlen np (skipn mid all)) as [R|] eqn:ER|].
+  - (* the split *)
+    pose proof (skipn_nth_cons _ _ _ Esep) as Hskip.
+    pose proof Hall as Hall2. rewrite <- (firstn_skipn mid all) in Hall2. apply ssorted_app in Hall2 as (HsL & HsR & Hcross).
+    assert (HinL : cells_in V lo (Some (fst sepc)) (firstn mid all)).
+    { apply Forall_forall. intros x Hx. unfold BTreeInv.cells_in in Hallin. rewrite Forall_forall in Hallin.
+      split; [apply Hallin; eapply In_firstn_c28; exact Hx|]. cbn. apply Hcross; [exact Hx | rewrite Hskip; left; reflexivity]. }
+    assert (HinR : cells_in V (Some (fst sepc)) hi (skipn mid all)).
+    { apply Forall_forall. intros x Hx. unfold BTreeInv.cells_in in Hallin. rewrite Forall_forall in Hallin.
+      split; [|apply Hallin; eapply In_skipn_c28; exact Hx]. cbn. rewrite Hskip in Hx, HsR. destruct Hx as [<- | Hx].
+      - apply klt_irrefl.
+      - apply ssorted_cons_inv in HsR as [_ Hf]. rewrite Forall_forall in Hf. specialize (Hf _ Hx). intros H1. exact (klt_asym _ _ Hf H1). }
+    destruct (build_leaf_ok _ _ _ _ _ EL HsL HinL) as [HLok HLc].
+    destruct (build_leaf_ok _ _ _ _ _ ER HsR HinR) as [HRok HRc].
+    cbn [ires_ok BTreeInv.bounded]. rewrite !abs_leaf, HLc, HRc, firstn_skipn. fold cs.
+    split; [exact HLok|]. split; [exact HRok|]. split; [|split; [|split; [|exact Pall]]].
+    + destruct mid as [|m] eqn:Em; [lia|].
+      destruct (firstn (S m) all) as [|x0 xs] eqn:Ef.
       { exfalso. apply (f_equal (@length _)) in Ef. rewrite firstn_length_le in Ef by lia. cbn [length] in Ef. lia. }
       unfold BTreeInv.cells_in in HinL. rewrite Forall_forall in HinL. destruct (HinL x0 (or_introl eq_refl)) as [H1 H2].
       eapply lo_ok_lt_trans; [exact H1 | exact H2].
-  - unfold BTreeInv.cells_in in Hallin. rewrite Forall_forall in Hallin. apply Hallin. exact Hsepin.
+    + unfold BTreeInv.cells_in in Hallin. rewrite Forall_forall in Hallin. apply Hallin. exact Hsepin.
+    + apply cell_fits_sep. apply Hallfit. exact Hsepin.
+  - (* right half refused *)
+    cbn [ires_ok]. rewrite abs_leaf. fold cs. apply (split_refusal_witness rm l e np mid lo hi); try assumption; reflexivity || (right; exact ER).
+  - cbn [ires_ok]. rewrite abs_leaf. fold cs. apply (split_refusal_witness rm l e np mid lo hi); try assumption; reflexivity || (left; exact EL).
 Qed.
 
 Lemma leaf_put_ires (l : leaf) pos (e : entry) np lo hi :
@@ -144,30 +227,33 @@ Proof.
   cbn [ires_ok BTreeInv.bounded]. rewrite !abs_leaf. split; assumption.
 Qed.
 
+Lemma lguard_ok lo hi (l : leaf) : leaf_ok lo hi l -> lguard V l = true.
+Proof. intros (_ & _ & H1 & _). unfold lguard, lfstart. apply Z.leb_le. exact H1. Qed.
+
 Lemma leaf_ins_ok m rm (l : leaf) (e : entry) np lo hi :
-  leaf_ok lo hi l -> lo_ok lo (fst e) -> hi_ok hi (fst e) ->
+  leaf_ok lo hi l -> lo_ok lo (fst e) -> hi_ok hi (fst e) -> cell_fits e ->
   (m = MAppend -> forall x, In x (lcells l) -> klt (fst x) (fst e)) ->
-  (lcells l = [] -> lfree V l < csize e + SLOT -> lo_lt lo (fst e)) ->
   ires_ok 0 lo hi (Leaf l) e (leaf_ins V vlen m rm l e np).
 Proof.
-  intros Hok Hlo Hhi Happ Hstrict. pose proof Hok as (Hs & Hin & Hsz). unfold leaf_ins. destruct m.
-  - destruct (negb (lguard V l)); [exact I|]. destruct (Z.leb_spec (csize e + SLOT) (lfree V l)) as [Hr | Hr].
+  intros Hok Hlo Hhi Hfit Happ. pose proof Hok as (Hs & Hin & Hsz). unfold leaf_ins. rewrite (lguard_ok lo hi l Hok). cbn [negb].
+  destruct m.
+  - destruct (Z.leb_spec (csize e + SLOT) (lfree V l)) as [Hr | Hr].
     + destruct (lfind V (fst e) (lcells l)) as [f pos] eqn:Ef. destruct f.
       * cbn [ires_ok]. rewrite abs_leaf. destruct (lfind_found V _ _ _ Ef) as (v & Hv).
         change (fst e) with (fst (fst e, v)). apply in_map. eapply nth_error_In. exact Hv.
       * apply leaf_put_ires; try assumption; [eapply lfind_ins; exact Ef | eapply lfind_notin; eassumption].
-    + apply split_leaf_ok; try assumption. intros Hc. apply Hstrict; assumption.
+    + apply split_leaf_ok; assumption.
   - destruct (lfind V (fst e) (lcells l)) as [f pos] eqn:Ef. destruct f.
     + cbn [ires_ok]. rewrite abs_leaf. destruct (lfind_found V _ _ _ Ef) as (v & Hv).
       change (fst e) with (fst (fst e, v)). apply in_map. eapply nth_error_In. exact Hv.
-    + destruct (negb (lguard V l)); [exact I|]. destruct (Z.leb_spec (csize e + SLOT) (lfree V l)) as [Hr | Hr].
+    + destruct (Z.leb_spec (csize e + SLOT) (lfree V l)) as [Hr | Hr].
       * apply leaf_put_ires; try assumption; [eapply lfind_ins; exact Ef | eapply lfind_notin; eassumption].
-      * apply split_leaf_ok; try assumption. intros Hc. apply Hstrict; assumption.
-  - destruct (negb (lguard V l)); [exact I|]. destruct (Z.leb_spec (csize e + SLOT) (lfree V l)) as [Hr | Hr].
+      * apply split_leaf_ok; assumption.
+  - destruct (Z.leb_spec (csize e + SLOT) (lfree V l)) as [Hr | Hr].
     + specialize (Happ eq_refl). apply leaf_put_ires; try assumption.
       * rewrite insert_at_length. apply append_ins. exact Happ.
       * apply all_lt_notin. exact Happ.
-    + apply split_leaf_ok; try assumption. intros Hc. apply Hstrict; assumption.
+    + apply split_leaf_ok; assumption.
 Qed.
 
 End LI.
